@@ -210,6 +210,10 @@ EXC_PARENT = {
     "ArithmeticError": "Exception",
     "AttributeError": "Exception",
     "Exception": "BaseException",
+    # werkzeug.exceptions
+    "HTTPException": "Exception",
+    "BadRequest": "HTTPException",
+    "SecurityError": "BadRequest",
 }
 
 
@@ -376,6 +380,15 @@ def bconst(b):
     return TRUE if b else FALSE
 
 
+class JoinMismatch(Exception):
+    """the branches of an `if` reach the following statements with different variable types"""
+
+
+#: an `if` whose following statements are reached from several branches and translate to at least
+#: this many lines gets them as one local function instead of one copy per branch
+JOIN_MIN_LINES = 8
+
+
 class NeedUnwrap(Exception):
     """an Option-typed variable is used as a plain value"""
 
@@ -414,6 +427,7 @@ class Translator:
         self.result_ty = parse_ty(spec.result)
         self.aux = []  # text of auxiliary definitions (loops), in order
         self.nloops = 0
+        self.njoin = 0
         self.loop_memo = {}
         self.size = 0
         self.tmp = 0
@@ -912,6 +926,11 @@ class Translator:
         self.bad(n, f"unsupported binary operation on {a.ty} and {b.ty}")
 
     def subscript(self, n, env) -> E:
+        if isinstance(n.value, ast.Name) and isinstance(n.slice, ast.Constant) and type(n.slice.value) is int:
+            key = f"{n.value.id}[{n.slice.value}]"
+            if key in env:  # a tuple component narrowed by a None-test
+                v = env[key]
+                return E(v.lean, v.ty, None, True, key)
         base = self.expr(n.value, env)
         sl = n.slice
         if isinstance(sl, ast.Slice):
@@ -1177,11 +1196,27 @@ class Translator:
         names = []
         for t in test_nodes:
             for nm in none_tested_names(t, bool_ctx):
-                if nm in env and env[nm].ty.kind == "Opt" and nm not in names:
+                if nm in names:
+                    continue
+                if nm in env and env[nm].ty.kind == "Opt":
                     names.append(nm)
+                elif nm not in env and nm.endswith("]") and "[" in nm:
+                    # component k of a local tuple: narrowed through a pseudo-variable `x[k]`
+                    base, k = nm[:-1].split("[")
+                    if base in env and env[base].ty.kind == "Tup" and k.isdigit() and int(k) < len(env[base].ty.args) and env[base].ty.args[int(k)].kind == "Opt":
+                        names.append(nm)
         if not names:
             return body_fn(env)
         nm = names[0]
+        if nm not in env:
+            base, k = nm[:-1].split("[")
+            k, m = int(k), len(env[base].ty.args)
+            proj = ".2" * k + (".1" if k < m - 1 else "")
+            env = dict(env)
+            env[nm] = Var(f"{env[base].lean}_{k}", env[base].ty.args[k])
+            scrut = f"{env[base].lean}{proj}"
+        else:
+            scrut = env[nm].lean
         v = env[nm]
         env_none = dict(env)
         env_none[nm] = Var(v.lean, NONE)
@@ -1189,7 +1224,7 @@ class Translator:
         env_some[nm] = Var(v.lean, v.ty.args[0])
         a = self.with_splits(node, test_nodes, env_none, loop, body_fn, bool_ctx)
         b = self.with_splits(node, test_nodes, env_some, loop, body_fn, bool_ctx)
-        return [f"match {v.lean} with", "| none =>"] + ind(a) + [f"| some {v.lean} =>"] + ind(b)
+        return [f"match {scrut} with", "| none =>"] + ind(a) + [f"| some {v.lean} =>"] + ind(b)
 
     def guarded(self, node, env, loop, fn):
         """run fn(env) -> lines; an unguarded use of an Option variable becomes a TypeError arm"""
@@ -1277,6 +1312,8 @@ class Translator:
 
             return self.comment(s) + self.stmt_value(s, s.value.args[0], env, loop, use_append, handlers=None)
         if isinstance(s, ast.If):
+            if loop is None and not getattr(s, "_py2lean_comment", None):
+                return self.stmt_if_joined(s, env, loop, k)
             return self.stmt_if(s, env, loop, k)
         if isinstance(s, ast.Raise):
             if s.cause is not None or s.exc is None:
@@ -1394,7 +1431,7 @@ class Translator:
                 # keep a declared Optional type only when the new value is None / plain of the same base
                 if not (old.kind in ("Opt", "None") or ty.kind in ("Opt", "None") or old == ty):
                     self.bad(s, f"{nm!r} changes its type from {old} to {ty}")
-            env2 = dict(env)
+            env2 = {k: v for k, v in env.items() if not k.startswith(nm + "[")}
             env2[nm] = Var(ln, ty)
             drop_facts(env2, nm)
             if ty == NONE:
@@ -1419,6 +1456,64 @@ class Translator:
                 drop_facts(env2, x.id)
             return lines + k(env2, loop)
         self.bad(s, "assignment target that is not a local name or a tuple of names")
+
+    def snapshot(self):
+        return (self.tmp, self.nloops, list(self.aux), dict(self.loop_memo), self.njoin)
+
+    def restore(self, snap):
+        self.tmp, self.nloops, aux, memo, self.njoin = snap
+        self.aux = list(aux)
+        self.loop_memo = dict(memo)
+
+    def stmt_if_joined(self, s, env, loop, k):
+        """an `if` statement outside loops: when the statements that follow it are reached from
+        several branches and are long, they become one local function (`let k1_ (vars…) := …`)
+        whose parameters are the variables the branches assign; otherwise (or when the branches
+        arrive with different variable types) each branch gets its own copy, as everywhere else"""
+        snap = self.snapshot()
+        calls = []
+
+        def k_count(env2, loop2):
+            lines = k(env2, loop2)
+            calls.append(len(lines))
+            return lines
+
+        plain = self.stmt_if(s, env, loop, k_count)
+        if len(calls) < 2 or max(calls) < JOIN_MIN_LINES:
+            return plain
+        after_plain = self.snapshot()
+        self.restore(snap)
+        self.njoin += 1
+        jname = f"k{self.njoin}_"
+        names = assigned_names([s])
+        jp = {"sig": None}
+
+        def kj(env2, loop2):
+            params = [(nm, env2[nm]) for nm in names if nm in env2]
+            sig = [(nm, v.ty) for nm, v in params]
+            if any(t == NONE for _, t in sig):
+                raise JoinMismatch()
+            if jp["sig"] is None:
+                jp["sig"] = sig
+            elif jp["sig"] != sig:
+                raise JoinMismatch()
+            return [jname + "".join(" " + v.lean for _, v in params)]
+
+        try:
+            body = self.stmt_if(s, env, loop, kj)
+            if jp["sig"] is None:
+                return body
+            env_j = {key: v for key, v in env.items() if not any(key.startswith(nm + "[") for nm, _ in jp["sig"])}
+            for nm, ty in jp["sig"]:
+                env_j[nm] = Var(lean_name(nm), ty)
+                drop_facts(env_j, nm)
+            tail = k(env_j, loop)
+        except JoinMismatch:
+            self.restore(after_plain)
+            return plain
+        binders = "".join(f" ({lean_name(nm)} : {lean_ty(ty)})" for nm, ty in jp["sig"])
+        head = [f"-- [the statements after the following `if`, shared by its branches: {jname}]", f"let {jname}{binders} : {self.ret_lean_ty} :="]
+        return head + ind(tail) + body
 
     def simple_if(self, s, env):
         """`if c: v1 = e1; v2 = e2` (no else; only re-assignments of defined plain variables
@@ -1461,7 +1556,9 @@ class Translator:
                 # later statements of the branch see the new value under the same name: the
                 # emitted `let` shadows it, so env2 is unchanged
             return c, out
-        except (NeedUnwrap, NoneUsed):
+        except (NeedUnwrap, NoneUsed, Untranslatable):
+            # not the simple shape after all: the general translation (case splits, bound raising
+            # calls) decides - and reports whatever is really outside the subset
             return None
 
     def stmt_if(self, s, env, loop, k):
@@ -1753,6 +1850,8 @@ def none_tested_names(test, bool_ctx=True):
     out = []
 
     def name_of(x):
+        if isinstance(x, ast.Subscript) and isinstance(x.value, ast.Name) and isinstance(x.slice, ast.Constant) and type(x.slice.value) is int:
+            return f"{x.value.id}[{x.slice.value}]"  # a component of a local tuple
         d = dotted(x)
         return d
 
@@ -1762,10 +1861,8 @@ def none_tested_names(test, bool_ctx=True):
                 boolpos(v)
         elif isinstance(x, ast.UnaryOp) and isinstance(x.op, ast.Not):
             boolpos(x.operand)
-        elif isinstance(x, (ast.Name, ast.Attribute)):
-            d = name_of(x)
-            if d is not None:
-                out.append(d)
+        elif isinstance(x, (ast.Name, ast.Attribute, ast.Subscript)) and name_of(x) is not None:
+            out.append(name_of(x))
         elif isinstance(x, ast.Compare):
             cmp_(x)
         elif isinstance(x, ast.IfExp):
